@@ -5,6 +5,7 @@ from . import ty as T
 from .ty import SV, fresh
 from . import theory as TH
 from .core import Unsupported, quick_unsat, exc_matches
+from .calls import NX_MODIFIES
 
 MUTATORS = {"append", "remove", "extend", "add", "update", "discard", "clear", "pop", "popleft", "insert", "sort"}
 
@@ -224,6 +225,9 @@ class StmtMixin:
             cur = t
             while True:
                 if isinstance(cur, ast.Name):
+                    v0 = p.env.get(cur.id)
+                    if v0 is not None and isinstance(v0.ty, T.Obj) and v0.ty.cls == "NpArray2" and cur is not t:
+                        return ("field", cur.id, "_m")      # a[i, j] = x on a numpy array changes its cells only
                     return ("name", cur.id)
                 if isinstance(cur, ast.Attribute) and isinstance(cur.value, ast.Name) and isinstance(p.env.get(cur.value.id, SV(T.NONE)).ty, T.Obj):
                     return ("field", cur.value.id, cur.attr)
@@ -272,6 +276,10 @@ class StmtMixin:
                     continue
                 if isinstance(recv, ast.Name) and isinstance(p.env.get(recv.id, SV(T.NONE)).ty, T.Obj):
                     obj = p.env[recv.id]
+                    if obj.ty.cls in NX_MODIFIES:
+                        for f in NX_MODIFIES[obj.ty.cls].get(n.func.attr, ["_gv", "_ge", "_gw"]):
+                            fields.add((recv.id, f))
+                        continue
                     c = self.frame_contract(obj.ty.cls, n, p)
                     if c is None:
                         raise Unsupported(f"call of uncontracted method {obj.ty.cls}.{n.func.attr}")
@@ -351,13 +359,13 @@ class StmtMixin:
                     hint = self.cur.locals.get(n)
                     if hint is None:
                         raise Unsupported(f"loop modifies `{n}` whose type is not known (declare it in locals=)")
-                    p.env[n] = self.fresh_of(self.parse_ty(hint), f"{tag}_{n}")
+                    p.env[n] = self.fresh_of(self.parse_ty(hint.split("|")[0]), f"{tag}_{n}")
                 else:
                     p.env[n] = self.fresh_of(v.ty, f"{tag}_{n}")
             else:
                 hint = self.cur.locals.get(n)
                 if hint is not None:
-                    p.env[n] = self.fresh_of(self.parse_ty(hint), f"{tag}_{n}")
+                    p.env[n] = self.fresh_of(self.parse_ty(hint.split("|")[0]), f"{tag}_{n}")
         byobj = {}
         for o, f in fields:
             byobj.setdefault(o, []).append(f)
@@ -445,6 +453,7 @@ class StmtMixin:
         self.assume_clauses(invs, after, pre_env=pre_env)
         for g in (f"_it{ordinal}", f"_j{ordinal}", f"_done{ordinal}"):
             after.env.pop(g, None)
+        after.env[f"_iterated{ordinal}"] = it["value"]      # the collection this loop ran over, for postconditions: local("_iterated<n>")
         for t in tnames:
             after.env.pop(t, None)
         outs.append((after, "next"))
